@@ -34,6 +34,30 @@ def main():
     _, tvcov, _ = tv.run(progs, a.jobs, {}, rep=rep)
     cleanup_scratch()
     cov["collection_programs"] = {"programs": tvcov["programs"], "statuses": tvcov["program_statuses"], "bounds": tvcov["bounds"]}
+    # a metadata declaration belongs to the query that carries it: the built-in is back for the next query on the same executor
+    from . import C07
+    import json as _json
+    hist_cases = []
+    for op in ("ok_coll", "ok_newcoll", "fail_coll", "fail_newcoll"):
+        for probe in ("typed_method", "undeclared_collection"):
+            hist_cases.append(([(op, "shared")], probe, "shared", False))
+    base_cases = [([], p_, "new", False) for p_ in ("typed_method", "undeclared_collection")]
+    hres = C07.fresh_map(hist_cases + base_cases, a.jobs)
+    fresh = {c[1]: r for c, r in zip(base_cases, hres[len(hist_cases):])}
+    for c, r in zip(hist_cases, hres):
+        rep.obligations += 1
+        b = fresh[c[1]]
+        if "error" in r or "error" in b:
+            rep.inconc(f"history {c[0]} probe {c[1]}", r.get("error") or b.get("error"))
+        elif r["outcome"] != b["outcome"] or (r["outcome"] == "ok" and r["files"] != b["files"]):
+            d = chcheck.REPLAYS / "C06" / f"history_{c[0][0][0]}_{c[1]}"
+            d.mkdir(parents=True, exist_ok=True)
+            (d / "finding.json").write_text(_json.dumps({"history": c[0], "probe": C07.PROBES[c[1]], "declaring_query": C07.OPS[c[0][0][0]][0],
+                                                         "after_history": r.get("outcome"), "fresh": b.get("outcome")}, indent=1))
+            rep.violation(f"collection declaration of an earlier query still in force: history {c[0]} then probe '{c[1]}' on the same executor gives "
+                          f"{r['outcome']} / different package, fresh executor gives {b['outcome']}", d)
+        else:
+            rep.discharged += 1
     sys.exit(rep.finish(cov, assumptions + ENGINE_A_ASSUMPTIONS[:3] + [
         "built-in collection table (name -> container type, element type, element indirection, header, library) is a frozen oracle in vlib/tv/model.py written from the README / data formats, not read from event_collections.py",
         "the jinja2 step between emitted lines and files is covered by the front end (rendered = static text + slot lines)"]))
